@@ -1,4 +1,4 @@
-import TrionModel.Lemmas.Trias
+import TrionModel.Lemmas.TriasBoot
 import TrionModel.Props.C17
 /-!
 # C18 — the file written by `trias` reproduces the assembled image
@@ -42,35 +42,184 @@ theorem post_ok (m : List Seg) (f : List UInt8) (h : post m = .ok f) :
         | err e => rw [hf] at h; cases h
         | panic s => rw [hf] at h; cases h
 
-/-- C18.b  **Blocks and pages** (`blocks_pages`, all clauses except "no two blocks target the same page").
-Whenever `trias` writes a file, the independent reader decodes it and every block has a 256-byte payload
-at a 256-aligned address, is numbered consecutively from 0 with the correct total, and carries the RP2040
-family id 0xE48BFF56 with exactly the family-id flag.
+/-! ### the program with its checksum word -/
 
-Full statement additionally: `∀ j k, j ≠ k → bs[j].addr ≠ bs[k].addr` for `Norm m`.
-Missing for that clause: the lemma that `padGo` leaves consecutive segments in different pages
-(sortedness of the padded list); it is checked by the correspondence oracle on every run. -/
-theorem blocks_pages_partial (m : List Seg) (ha : Addr32 m) (f : List UInt8) (h : post m = .ok f) :
-    ∃ bs, read f = some bs ∧ f.length = 512 * bs.length ∧
-      ∀ k (hk : k < bs.length), bs[k].psize = 256 ∧ bs[k].addr % 256 = 0 ∧ bs[k].blockNo = k ∧
-        bs[k].numBlocks = bs.length ∧ bs[k].fam = 0xE48BFF56 ∧ bs[k].flags = 0x2000 := by
+/-- the four bytes stored at 0x100000FC: little-endian CRC-32/MPEG-2 (bit-serial specification of C17) of the
+252 bytes 0x10000000..0x100000FB, absent bytes read as zero (`bootBytes`) -/
+def crcWord (m : List Seg) : List UInt8 :=
+  le32 (Trion.Crc.Spec.crc ((bootBytes m).map UInt8.toBitVec)).toNat
+
+/-- the assembled program plus, when it occupies 0x10000000, the checksum word at 0x100000FC..0x100000FF -/
+def withCrc (m : List Seg) (x : Nat) : Option UInt8 :=
+  if (lookup m 0x10000000).isSome = true ∧ 0x100000FC ≤ x ∧ x < 0x10000100 then (crcWord m)[x - 0x100000FC]?
+  else lookup m x
+
+/-- what `bootCrc` hands on is normalised and is, as a dictionary, `withCrc m` -/
+theorem bootCrc_lookup (m m1 : List Seg) (hn : NormAbove 0 m) (h : bootCrc m = .ok m1) :
+    NormAbove 0 m1 ∧ ∀ x, lookup m1 x = withCrc m x := by
+  unfold bootCrc at h
+  split at h
+  · rename_i h0
+    split at h
+    · cases h
+    · rename_i hany
+      cases h
+      have hfree : ∀ x, 0x100000FC ≤ x → x < 0x100000FC + (le32 (crc32 (bootBytes m))).length → lookup m x = none := by
+        intro x hx1 hx2
+        rw [le32_length] at hx2
+        simp only [List.any_eq_true, not_exists, not_and, List.mem_range] at hany
+        have := hany (x - 0x100000FC) (by omega)
+        rw [show 0x100000FC + (x - 0x100000FC) = x by omega] at this
+        cases hl : lookup m x with
+        | none => rfl
+        | some v => rw [hl] at this; exact absurd rfl this
+      obtain ⟨i1, i2⟩ := insertMerge_spec m 0 0x100000FC (le32 (crc32 (bootBytes m))) hn (by simp [le32]) hfree
+      refine ⟨i1.mono (Nat.zero_le _), ?_⟩
+      intro x
+      rw [i2 x, le32_length]
+      unfold withCrc crcWord
+      simp only [crc32, Trion.Crc.crc_eq_spec]
+      by_cases hx : 0x100000FC ≤ x ∧ x < 0x100000FC + 4
+      · rw [if_pos hx, if_pos ⟨h0, hx.1, by omega⟩]
+      · rw [if_neg hx, if_neg (by omega)]
+  · rename_i h0
+    cases h
+    refine ⟨hn, fun x => ?_⟩
+    unfold withCrc
+    rw [if_neg (fun c => h0 c.1)]
+
+/-- the checksum word lies in a page the program occupies anyway -/
+theorem withCrc_touched (m : List Seg) (x : Nat) : TouchedF (withCrc m) x ↔ TouchedF (lookup m) x := by
+  constructor
+  · rintro ⟨a, ha, hp⟩
+    unfold withCrc at ha
+    split at ha
+    · rename_i hc
+      exact ⟨0x10000000, hc.1, by omega⟩
+    · exact ⟨a, ha, hp⟩
+  · rintro ⟨a, ha, hp⟩
+    refine ⟨a, ?_, hp⟩
+    unfold withCrc
+    split
+    · rename_i hc
+      have : a - 0x100000FC < (crcWord m).length := by
+        show a - 0x100000FC < 4
+        omega
+      rw [List.getElem?_eq_getElem this]; rfl
+    · exact ha
+
+/-- the image of a produced file, in terms of the padded list (UF2 half) -/
+theorem post_image (m : List Seg) (ha : Addr32 m) (f : List UInt8) (h : post m = .ok f) :
+    ∃ m1, ∃ st' : St, bootCrc m = .ok m1 ∧ read f = some ((segsBlks st0 (padAll m1)).map (toBlock st0.cfg st'.count)) ∧
+      f.length = 512 * (segsBlks st0 (padAll m1)).length ∧
+      (segsBlks st0 (padAll m1)).length = st'.count ∧
+      (∀ k (hk : k < (segsBlks st0 (padAll m1)).length), (segsBlks st0 (padAll m1))[k].no = k) ∧
+      ∀ x, image ((segsBlks st0 (padAll m1)).map (toBlock st0.cfg st'.count)) x = segsImage (padAll m1) x := by
   obtain ⟨_, m1, st', hb, hw, hf⟩ := post_ok m f h
   have ha1 := bootCrc_addr32 m m1 ha hb
   have hps := padAll_starts m1 ha1
-  obtain ⟨hI, hE⟩ := writeSegs_spec (padAll m1) st0 st' st0_inv (fun s hs => (hps s hs).2) hw
+  have ha2 : Trias.Addr32 (padAll m1) := fun s hs => (hps s hs).2
+  obtain ⟨hI, hE⟩ := writeSegs_spec (padAll m1) st0 st' st0_inv ha2 hw
   have hout : st'.out = encAll st'.cfg 0 (segsBlks st0 (padAll m1)) := by rw [hE.out, hE.cfg]; rfl
   have hlen : (segsBlks st0 (padAll m1)).length = st'.count := by rw [hE.count]; simp [st0]
   obtain ⟨f1, f2, f3⟩ := finish_spec st' hI _ hE.ok hout hlen
   rw [hf] at f1
   cases f1
-  refine ⟨_, f2, by rw [f3, List.length_map, hlen], ?_⟩
-  intro k hk
-  simp only [List.length_map] at hk
-  have hno := hE.no k hk
-  have h256 := segsBlks_256 (padAll m1) st0 st0_inv rfl rfl hps _ (List.getElem_mem hk)
-  simp only [List.getElem_map, toBlock, List.length_map, hE.cfg]
-  refine ⟨h256.1, h256.2.1, by rw [hno]; simp [st0], hlen.symm, rfl, ?_⟩
-  rw [h256.2.2]; rfl
+  refine ⟨m1, st', hb, by rw [← hE.cfg]; exact f2, by rw [f3, hlen], hlen, ?_, ?_⟩
+  · intro k hk
+    rw [hE.no k hk]; simp [st0]
+  · intro x
+    exact segsBlks_image (padAll m1) st0 st' st0_inv rfl ha2 hw _ x
+
+/-- C18.a  **Image of the file** (`pad_pages`). For every normalised program `m` for which `trias` writes a
+file `f`: the independent reader decodes `f`, and the memory image a loader obtains from it is, at every
+address `x`,
+
+* when the 256-byte page of `x` contains a program byte: the program byte at `x`, the checksum byte at `x`
+  (addresses 0x100000FC..FF of a boot-sector program), and zero for every other `x` of that page
+  (`(withCrc m x).getD 0`);
+* **nothing** when the program touches no byte of `x`'s page. -/
+theorem pad_pages (m : List Seg) (hn : Norm m) (f : List UInt8) (h : post m = .ok f) :
+    ∃ bs, read f = some bs ∧ ∀ x,
+      (TouchedF (lookup m) x → image bs x = some ((withCrc m x).getD 0)) ∧
+      (¬ TouchedF (lookup m) x → image bs x = none) := by
+  obtain ⟨m1, st', hb, hr, _, _, _, hi⟩ := post_image m hn.addr32 f h
+  obtain ⟨hn1, hl1⟩ := bootCrc_lookup m m1 hn.normAbove hb
+  obtain ⟨hp, he⟩ := padAll_spec m1 hn1
+  refine ⟨_, hr, fun x => ?_⟩
+  obtain ⟨s1, s2⟩ := segsImage_pnorm hp x
+  have hfun : lookup m1 = withCrc m := funext hl1
+  have ht : TouchedF (lookup (padAll m1)) x ↔ TouchedF (lookup m) x := by
+    rw [he.touched x, hfun]; exact withCrc_touched m x
+  rw [hi x]
+  constructor
+  · intro t
+    rw [s1 (ht.mpr t), he.getD x, hfun]
+  · intro t
+    exact s2 (fun c => t (ht.mp c))
+
+/-- C18.a'  Corollary in the words of the property: every program byte is read back at its address. (A program
+byte never competes with the checksum word: a file is produced only when 0x100000FC..FF is free, `boot_crc_refuses`.) -/
+theorem pad_pages_bytes (m : List Seg) (hn : Norm m) (f : List UInt8) (h : post m = .ok f) :
+    ∃ bs, read f = some bs ∧ ∀ x v, lookup m x = some v → image bs x = some v := by
+  obtain ⟨bs, hr, hx⟩ := pad_pages m hn f h
+  refine ⟨bs, hr, fun x v hv => ?_⟩
+  have ht : TouchedF (lookup m) x := ⟨x, by rw [hv]; rfl, rfl⟩
+  rw [(hx x).1 ht]
+  -- the checksum range is free whenever a file is produced
+  obtain ⟨_, m1, _, hb, _, _⟩ := post_ok m f h
+  unfold withCrc
+  split
+  · rename_i hc
+    exfalso
+    unfold bootCrc at hb
+    rw [if_pos hc.1] at hb
+    split at hb
+    · cases hb
+    · rename_i hany
+      simp only [List.any_eq_true, not_exists, not_and, List.mem_range] at hany
+      have := hany (x - 0x100000FC) (by omega)
+      rw [show 0x100000FC + (x - 0x100000FC) = x by omega, hv] at this
+      exact this rfl
+  · rw [hv]; rfl
+
+/-- C18.b  **Blocks and pages** (`blocks_pages`). Whenever `trias` writes a file, the independent reader
+decodes it and every block has a 256-byte payload at a 256-aligned address, is numbered consecutively from 0
+with the correct total, carries the RP2040 family id 0xE48BFF56 with exactly the family-id flag, and the
+blocks target strictly ascending — in particular pairwise distinct — pages. -/
+theorem blocks_pages (m : List Seg) (hn : Norm m) (f : List UInt8) (h : post m = .ok f) :
+    ∃ bs, read f = some bs ∧ f.length = 512 * bs.length ∧
+      (∀ k (hk : k < bs.length), bs[k].psize = 256 ∧ bs[k].addr % 256 = 0 ∧ bs[k].blockNo = k ∧
+        bs[k].numBlocks = bs.length ∧ bs[k].fam = 0xE48BFF56 ∧ bs[k].flags = 0x2000) ∧
+      (∀ j k (hj : j < bs.length) (hk : k < bs.length), j < k → bs[j].addr + 256 ≤ bs[k].addr) ∧
+      (∀ j k (hj : j < bs.length) (hk : k < bs.length), j ≠ k → bs[j].addr ≠ bs[k].addr) := by
+  obtain ⟨m1, st', hb, hr, hlen5, hlen, hno, _⟩ := post_image m hn.addr32 f h
+  have ha1 := bootCrc_addr32 m m1 hn.addr32 hb
+  have hps := padAll_starts m1 ha1
+  obtain ⟨hn1, _⟩ := bootCrc_lookup m m1 hn.normAbove hb
+  obtain ⟨hp, _⟩ := padAll_spec m1 hn1
+  obtain ⟨hsorted, _⟩ := segsBlks_sorted (padAll m1) 0 st0 st0_inv rfl rfl hp (fun s hs => (hps s hs).2)
+  have hlt : ∀ j k (hj : j < (segsBlks st0 (padAll m1)).length) (hk : k < (segsBlks st0 (padAll m1)).length),
+      j < k → (segsBlks st0 (padAll m1))[j].addr + 256 ≤ (segsBlks st0 (padAll m1))[k].addr := by
+    intro j k hj hk hjk
+    exact (List.pairwise_iff_getElem.mp hsorted) j k hj hk hjk
+  refine ⟨_, hr, by rw [List.length_map]; exact hlen5, ?_, ?_, ?_⟩
+  · intro k hk
+    simp only [List.length_map] at hk
+    have h256 := segsBlks_256 (padAll m1) st0 st0_inv rfl rfl hps _ (List.getElem_mem hk)
+    simp only [List.getElem_map, toBlock, List.length_map]
+    refine ⟨h256.1, h256.2.1, hno k hk, hlen.symm, rfl, ?_⟩
+    rw [h256.2.2]; rfl
+  · intro j k hj hk hjk
+    simp only [List.length_map] at hj hk
+    simp only [List.getElem_map, toBlock]
+    exact hlt j k hj hk hjk
+  · intro j k hj hk hjk
+    simp only [List.length_map] at hj hk
+    simp only [List.getElem_map, toBlock]
+    rcases Nat.lt_or_gt_of_ne hjk with h1 | h1
+    · have := hlt j k hj hk h1; omega
+    · have := hlt k j hk hj h1; omega
 
 /-- C18.c (second clause of `boot_crc`)  A program that occupies 0x10000000 and itself places data in
 0x100000FC..0x100000FF is refused: no file content is produced. -/
@@ -89,64 +238,118 @@ theorem boot_crc_refuses (m : List Seg) (h0 : (lookup m 0x10000000).isSome)
       exact ⟨i, List.mem_range.mpr hi, by simpa using h⟩
     simp [this]
 
-/-- C18.c' (first clause of `boot_crc`, model level)  When the program occupies 0x10000000 and leaves
-0x100000FC..0x100000FF free, the segment list that is padded and written is the program's with exactly one
-insertion: at 0x100000FC, the four little-endian bytes of the CRC-32/MPEG-2 (the bit-serial specification of
-C17) of the 252 bytes 0x10000000..0x100000FB, absent bytes read as zero (`bootBytes`).
-
-Not proved: the read-back of these four bytes through `image (read f)` (needs the dictionary lemma named in
-`pad_pages_partial`). -/
-theorem boot_crc_partial (m : List Seg) (h0 : (lookup m 0x10000000).isSome)
-    (hfree : ∀ i, i < 4 → lookup m (0x100000FC + i) = none) :
-    bootCrc m = .ok (insertMerge 0x100000FC
-      (le32 (Trion.Crc.Spec.crc ((bootBytes m).map UInt8.toBitVec)).toNat) m) ∧
-    (bootBytes m).length = 252 ∧
-    ∀ i (hi : i < 252), (bootBytes m)[i]? = some ((lookup m (0x10000000 + i)).getD 0) := by
-  refine ⟨?_, by simp [bootBytes], ?_⟩
-  · unfold bootCrc
-    rw [if_pos h0, if_neg]
-    · simp only [crc32, Trion.Crc.crc_eq_spec]
-    · simp only [List.any_eq_true, not_exists, not_and]
-      intro i hi
-      rw [hfree i (List.mem_range.mp hi)]
-      simp
+/-- C18.c (first clause of `boot_crc`)  When the program occupies 0x10000000 and a file is produced, reading
+the loader image of the file at 0x100000FC..0x100000FF gives four bytes `b0 b1 b2 b3` whose little-endian
+value is the CRC-32/MPEG-2 (`Trion.Crc.Spec.crc`, the bit-serial specification of C17) of the 252 bytes
+`bootBytes m` = the program's bytes at 0x10000000..0x100000FB with absent bytes read as zero. -/
+theorem boot_crc (m : List Seg) (hn : Norm m) (h0 : (lookup m 0x10000000).isSome) (f : List UInt8)
+    (h : post m = .ok f) :
+    ∃ bs b0 b1 b2 b3, read f = some bs ∧
+      image bs 0x100000FC = some b0 ∧ image bs 0x100000FD = some b1 ∧
+      image bs 0x100000FE = some b2 ∧ image bs 0x100000FF = some b3 ∧
+      b0.toNat + 256 * b1.toNat + 65536 * b2.toNat + 16777216 * b3.toNat =
+        (Trion.Crc.Spec.crc ((bootBytes m).map UInt8.toBitVec)).toNat ∧
+      (bootBytes m).length = 252 ∧
+      ∀ i (hi : i < 252), (bootBytes m)[i]? = some ((lookup m (0x10000000 + i)).getD 0) := by
+  obtain ⟨bs, hr, hx⟩ := pad_pages m hn f h
+  have ht : ∀ x, 0x100000FC ≤ x → x < 0x10000100 → TouchedF (lookup m) x :=
+    fun x h1 h2 => ⟨0x10000000, h0, by omega⟩
+  have hv : ∀ i, i < 4 → image bs (0x100000FC + i) = some (((crcWord m)[i]?).getD 0) := by
+    intro i hi
+    rw [(hx _).1 (ht _ (by omega) (by omega))]
+    unfold withCrc
+    rw [if_pos ⟨h0, by omega, by omega⟩, show 0x100000FC + i - 0x100000FC = i by omega]
+  let c := (Trion.Crc.Spec.crc ((bootBytes m).map UInt8.toBitVec)).toNat
+  have hc : c < 4294967296 := (Trion.Crc.Spec.crc ((bootBytes m).map UInt8.toBitVec)).isLt
+  refine ⟨bs, (c % 256).toUInt8, (c / 256 % 256).toUInt8, (c / 65536 % 256).toUInt8,
+    (c / 16777216 % 256).toUInt8, hr, hv 0 (by decide), hv 1 (by decide), hv 2 (by decide), hv 3 (by decide),
+    ?_, by simp [bootBytes], ?_⟩
+  · rw [toUInt8_toNat _ (Nat.mod_lt _ (by decide)), toUInt8_toNat _ (Nat.mod_lt _ (by decide)),
+      toUInt8_toNat _ (Nat.mod_lt _ (by decide)), toUInt8_toNat _ (Nat.mod_lt _ (by decide))]
+    show c % 256 + 256 * (c / 256 % 256) + 65536 * (c / 65536 % 256) + 16777216 * (c / 16777216 % 256) = c
+    omega
   · intro i hi
     simp [bootBytes, hi]
 
+/-! ### the list helpers are the `MemoryMap` model of C15 -/
+
+/-- C18.e  The dictionary view `lookup` is the abstraction function of the memory-map model, and `Norm` is its
+representation invariant. -/
+theorem lookup_is_map_abs (m : List Seg) : lookup m = Trion.Map.abs m := lookup_eq_abs m
+theorem norm_is_map_inv (m : List Seg) : Norm m ↔ Trion.Map.MInv m := norm_iff_minv m
+
+/-- C18.e  `find(a, Search::Exact).is_some()` of the memory-map model (binary search and all) is
+`(lookup m a).isSome`, and it does not panic. -/
+theorem lookup_is_map_find (m : List Seg) (hn : Norm m) (a : Nat) :
+    (Trion.Map.find m a .exact = .ok none ∧ lookup m a = none) ∨
+    (∃ r, Trion.Map.find m a .exact = .ok (some r) ∧ (lookup m a).isSome = true) := by
+  have inv := (norm_iff_minv m).mp hn
+  rw [lookup_eq_abs]
+  rcases Trion.Map.find_exact_spec inv a with ⟨_, h1, h2⟩ | ⟨j, s, h1, _, h3, h4, h5⟩
+  · exact Or.inl ⟨h1, h2⟩
+  · refine Or.inr ⟨_, h3, ?_⟩
+    obtain ⟨a1, _⟩ := Trion.Map.abs_of_idx inv h1
+    rw [a1 a h4 h5, List.getElem?_eq_getElem (by omega)]; rfl
+
+/-- C18.e  `insertMerge` is `MemoryMap::put` of the C15 model whenever the target range is free, and that put
+returns `Ok(d.len())`. In particular the checksum insertion of `bootCrc` is the model's
+`put(FLASH_CRC, &crc.to_le_bytes())`, which succeeds with `Ok(4)`. -/
+theorem insertMerge_is_map_put (m : List Seg) (hn : Norm m) (a : Nat) (d : List UInt8) (hd : d ≠ [])
+    (hb : a + d.length ≤ 4294967296) (hfree : ∀ x, a ≤ x → x < a + d.length → lookup m x = none) :
+    Trion.Map.put m a d = (.ok d.length, insertMerge a d m) :=
+  insertMerge_eq_put m a d ((norm_iff_minv m).mp hn) hd hb hfree
+
+theorem bootCrc_is_map_put (m : List Seg) (hn : Norm m) (h0 : (lookup m 0x10000000).isSome)
+    (hfree : ∀ i, i < 4 → lookup m (0x100000FC + i) = none) :
+    ∃ m1, bootCrc m = .ok m1 ∧ Trion.Map.put m 0x100000FC (le32 (crc32 (bootBytes m))) = (.ok 4, m1) := by
+  refine ⟨_, ?_, insertMerge_is_map_put m hn _ _ (by simp [le32]) (by rw [le32_length]; decide) ?_⟩
+  · unfold bootCrc
+    rw [if_pos h0, if_neg]
+    simp only [List.any_eq_true, not_exists, not_and]
+    intro i hi
+    rw [hfree i (List.mem_range.mp hi)]
+    simp
+  · intro x hx1 hx2
+    rw [le32_length] at hx2
+    have := hfree (x - 0x100000FC) (by omega)
+    rwa [show 0x100000FC + (x - 0x100000FC) = x by omega] at this
+
+/-- C18.e  **The checksum step replayed on the `MemoryMap` model.** `bootMap` (Model/TriasPad.lean) is step 2 of
+`assemble()` statement by statement on the C15 model — `find(FLASH_BASE, Exact)`, the loop over
+`iter_range(FLASH_BASE ..= FLASH_BASE + 0xFF)` with the refusal test `range.get_last() >= FLASH_CRC` and
+`temp[first..=last].copy_from_slice(data)`, the CRC over `temp`, `put(FLASH_CRC, ..)` — with the `u32`
+subtractions, slice bounds, `copy_from_slice` length check, index panics of the map and a failing `put` as error
+outcomes. On every well-formed map it agrees with `bootCrc` used by `post`: it refuses exactly when `bootCrc`
+does, otherwise yields the same segment list, and no other outcome occurs. -/
+theorem boot_step_is_map_step (m : List Seg) (hn : Norm m) :
+    bootMap m = match bootCrc m with
+      | .ok m1 => .ok m1
+      | .error _ => .error .refuse :=
+  bootMap_eq m ((norm_iff_minv m).mp hn)
+
+/-- C18.e  **The padding loop replayed on the `MemoryMap` model.** `padMap` (Model/TriasPad.lean) is the Rust
+loop statement by statement on the C15 model — `find(0, Above)`, `find(prev + 1, Above)` (binary search),
+`assert_eq!(put(.., &BLANK_PAGE[..n]), Ok(n))` (merge walk), `prev = range.get_last()` — with the asserts, a
+panic of `find` and the model's iteration bound as error outcomes. On every well-formed map it returns exactly
+the list recursion `padAll` used by `post`; in particular none of the three `assert_eq!` can fire. -/
+theorem pad_loop_is_map_loop (m : List Seg) (hn : Norm m) : padMap m = .ok (padAll m) :=
+  padMap_eq m ((norm_iff_minv m).mp hn)
+
+example : padMap [(0x10000005, [1]), (0x10000105, [2]), (0x10000110, [3]), (0x10000205, [4])] =
+    .ok [(0x10000000, [0, 0, 0, 0, 0, 1]), (0x10000100, [0, 0, 0, 0, 0, 2, 0, 0, 0, 0, 0, 0, 0, 0, 0, 0, 3]),
+      (0x10000200, [0, 0, 0, 0, 0, 4])] := by rfl
+
 /-- C18.d  An empty image produces no file. -/
 theorem empty_refused : post [] = .error .empty := rfl
-
-/-- C18.a  **Image of the file** (`pad_pages`, the UF2 half). The image a loader obtains from the file is
-exactly the padded segment list (program bytes, checksum word, zero fill inserted by the padding loop), each
-segment followed by zeros up to the end of its last page: `segsImage (padAll m1)`.
-
-Full statement of `pad_pages` additionally identifies `segsImage (padAll m1)` with
-"`lookup m1 x` or 0 on every 256-byte page that `m1` touches, nothing elsewhere" for `Norm m`.
-Missing: the dictionary lemma for `padGo`/`insertMerge` on sorted lists (gap filling preserves `lookup`
-and adds only zeros inside touched pages); that clause is evaluated by the correspondence oracle on
-every generated program. -/
-theorem pad_pages_partial (m : List Seg) (ha : Addr32 m) (f : List UInt8) (h : post m = .ok f) :
-    ∃ m1 bs, bootCrc m = .ok m1 ∧ read f = some bs ∧ ∀ x, image bs x = segsImage (padAll m1) x := by
-  obtain ⟨_, m1, st', hb, hw, hf⟩ := post_ok m f h
-  have ha1 := bootCrc_addr32 m m1 ha hb
-  have hps := padAll_starts m1 ha1
-  have ha2 : Trias.Addr32 (padAll m1) := fun s hs => (hps s hs).2
-  obtain ⟨hI, hE⟩ := writeSegs_spec (padAll m1) st0 st' st0_inv ha2 hw
-  have hout : st'.out = encAll st'.cfg 0 (segsBlks st0 (padAll m1)) := by rw [hE.out, hE.cfg]; rfl
-  have hlen : (segsBlks st0 (padAll m1)).length = st'.count := by rw [hE.count]; simp [st0]
-  obtain ⟨f1, f2, _⟩ := finish_spec st' hI _ hE.ok hout hlen
-  rw [hf] at f1
-  cases f1
-  refine ⟨m1, _, hb, f2, ?_⟩
-  intro x
-  rw [hE.cfg]
-  exact segsBlks_image (padAll m1) st0 st' st0_inv rfl ha2 hw _ x
 
 /-! ### non-vacuity -/
 
 /-- a boot-sector program and a second region: the file has two blocks -/
 example : (match post [(0x10000000, [1, 2, 3]), (0x20000010, [4])] with
     | .ok f => f.length == 1024 | .error _ => false) = true := by decide +kernel
+example : Norm [(0x10000000, [1, 2, 3]), (0x20000010, [4])] := by
+  refine ⟨by decide, by decide, by decide, by decide⟩
+example : (lookup [(0x10000000, [1, 2, 3]), (0x20000010, [4])] 0x10000000).isSome = true := rfl
 example : post [(0x10000000, [1]), (0x100000FD, [2])] = .error .crcOverwrite :=
   boot_crc_refuses _ rfl 1 (by decide) rfl
 
